@@ -9,6 +9,7 @@ from _pytask.dag_utils import node_and_neighbors
 from _pytask.database_utils import has_node_changed
 from _pytask.database_utils import update_states_in_database
 from _pytask.mark_utils import has_mark
+from _pytask.node_protocols import PProvisionalNode
 from _pytask.outcomes import Persisted
 from _pytask.outcomes import TaskOutcome
 from _pytask.pluginmanager import hookimpl
@@ -43,11 +44,21 @@ def pytask_execute_task_setup(session: Session, task: PTask) -> None:
     # In a dry-run, a task following a task which would be executed is reported as such:
     # whether its nodes are still changed once the preceding tasks ran cannot be known.
     if has_mark(task, "persist") and not has_mark(task, "would_be_executed"):
+        # Provisional products are resolved after the task has been executed. They do not
+        # have a state and are ignored like in the setup hook of execute.py.
+        names = [
+            name
+            for name in node_and_neighbors(session.dag, task.signature)
+            if not isinstance(
+                session.dag.nodes[name].get("task") or session.dag.nodes[name]["node"],
+                PProvisionalNode,
+            )
+        ]
         all_states = [
             (
                 session.dag.nodes[name].get("task") or session.dag.nodes[name]["node"]
             ).state()
-            for name in node_and_neighbors(session.dag, task.signature)
+            for name in names
         ]
         all_nodes_exist = all(all_states)
 
@@ -59,9 +70,7 @@ def pytask_execute_task_setup(session: Session, task: PTask) -> None:
                     or session.dag.nodes[name]["node"],
                     state=state,
                 )
-                for name, state in zip(
-                    node_and_neighbors(session.dag, task.signature), all_states
-                )
+                for name, state in zip(names, all_states)
             )
             if any_node_changed:
                 collect_provisional_products(session, task)
